@@ -1,0 +1,40 @@
+//go:build verif
+
+package socks
+
+// Contracts for the hvc verifier (/verif). Comment-only.
+
+// RFC 1928 reply: VER REP RSV ATYP [LEN] ADDR PORT(hi, lo)
+//@ spec socksReply(rep, atyp, addr, port) = cat(seq(5, rep, 0, atyp), ite(atyp == 3, seq(byte(len(addr))), seq()), addr, seq(byte(port >> 8), byte(port)))
+
+//@ func CreateResponsePackage(ErrorType byte, ATYP byte, IpDomain []byte, Port uint16) (r []byte)
+//@   ensures bytes: r == socksReply(ErrorType, ATYP, IpDomain, Port)
+//@   ensures fresh: fresh(arrayof(r))
+
+// What was handed to conn.Write last is kept in the ghost field "written" of the connection.
+//@ func SendConnectSuccess(conn net.Conn, ATYP byte, IpDomain []byte, Port uint16) (err error)
+//@   requires nonnil: conn != nil
+//@   modifies ghostbytes(conn, "written")
+//@   ensures reply: ghostbytes(conn, "written") == socksReply(0, ATYP, IpDomain, Port)
+
+//@ func SendConnectFailure(conn net.Conn, ErrorCode uint32, ATYP byte, IpDomain []byte, Port uint16) (err error)
+//@   requires nonnil: conn != nil
+//@   modifies ghostbytes(conn, "written")
+//@   ensures reply: ghostbytes(conn, "written") == socksReply(ite(ErrorCode == 10060, 6, ite(ErrorCode == 10061, 5, ite(ErrorCode == 10065, 4, ite(ErrorCode == 10051, 3, 1)))), ATYP, IpDomain, Port)
+
+//@ func SendCommandNotSupported(conn net.Conn) (err error)
+//@   requires nonnil: conn != nil
+//@   modifies ghostbytes(conn, "written")
+//@   ensures reply: ghostbytes(conn, "written") == seq(5, 7, 0, 1, 0, 0, 0, 0, 0, 0)
+
+//@ func SendAddressTypeNotSupported(conn net.Conn) (err error)
+//@   requires nonnil: conn != nil
+//@   modifies ghostbytes(conn, "written")
+//@   ensures reply: ghostbytes(conn, "written") == seq(5, 8, 0, 1, 0, 0, 0, 0, 0, 0)
+
+//@ func SubNegotiationClient(conn net.Conn) (h NegotiationHeader, err error)
+//@   requires nonnil: conn != nil
+//@   modifies ghostbytes(conn, "consumed")
+//@ func ReadSocksHeader(conn net.Conn) (h SocksHeader, err error)
+//@   requires nonnil: conn != nil
+//@   modifies ghostbytes(conn, "consumed")
